@@ -536,6 +536,18 @@ static void run_op(const std::vector<std::string> &w, const std::string &, out &
             if (pool_alloc(&MC->head) != nullptr) o.fail("pool without a zone hands out a cell");
             return;
         }
+        if (k == "ipool0")
+        {
+            // igris::pool p;  -- default constructed, never init()-ed: a pool of capacity 0
+            PC.reset(new PoolCase());
+            PC->e = 8;
+            PC->cap = 0;
+            PC->zone.reset(new exact_buf(0));
+            PC->is_ip = true;
+            o.result = su(PC->ip.room()) + " " + su(PC->ip.avail());
+            o.tag("default-constructed");
+            return;
+        }
         if (k == "pool" || k == "ipool")
         {
             PC.reset(new PoolCase());
@@ -724,6 +736,11 @@ static void run_op(const std::vector<std::string> &w, const std::string &, out &
             o.result = r ? "1" : "0";
             bool ref = i >= 0 && (size_t)i < PC->cap && PC->live.count((size_t)i * PC->e);
             if (r != ref) o.fail("cell_is_allocated(" + s(i) + ") disagrees with the shadow map");
+        }
+        else if (op == "sz")
+        {
+            o.result = su(ip.size()) + " " + su(ip.element_size());
+            if (ip.size() != PC->cap) o.fail("size() " + su(ip.size()) + " != capacity " + s(PC->cap));
         }
         else if (op == "it")
         {
@@ -1175,6 +1192,7 @@ static void gen_pool_case(rng &r, bool ip, size_t e, size_t cap)
     // offsets are live (the harness oracle does not rely on it)
     std::vector<size_t> freel, live;
     for (size_t i = 0; i < cap; i++) freel.push_back(i * e); // back() = list head
+    if (ip) puts("sz");
     auto alloc = [&]() {
         puts(A);
         if (!freel.empty())
@@ -1394,6 +1412,8 @@ static void gen(rng &r, const std::string &tier)
         for (size_t cap : {1, 3, 4, 7})
             if (th || (e / 4 + cap + g_seed) % 3 == 0)
                 gen_pool_case(r, (e / 4 + cap) % 2, e, cap);
+    // a default-constructed igris::pool (no zone): every query must answer "empty"
+    puts("reset ipool0\ng\nsz\nca 0\nit\np null\ng\nca -1\nsz");
     for (auto &k : sop_kinds)
         for (int i = 0; i < (th ? 4 : 1); i++) gen_sop_case(r, k);
     // object pools extended by further zones through freelist()
